@@ -47,6 +47,7 @@ THEOREMS = [
     'C02_P_three_points_locus_partial',
     'C02_orient_plane_ok',
     'C02_sq_positive_g_flipped',
+    'C02_sq_gq_inconsistent',
     'C02_sq_positive_g_refuted',
     'C02_convert_any_axis',
     'C02_C_K_any_axis_locus_sense',
@@ -839,6 +840,14 @@ def _run(res, tier, seed, proofs_ok):
         if status in ('rejected', 'wrong'):
             report_sweep_failure(res, mn, prm, status, detail,
                                  f'witness of {cls}')
+    # the GQ twin of the SQ witness (same polynomial, same MCNP sense) must be
+    # converted correctly: the defect is in the SQ path only
+    twin = [-1.0, -1.0, -1.0, 0.0, 0.0, 0.0, 0.0, 0.0, 0.0, 1.0]
+    status, detail = sweep_card(random.Random(seed + 1), 'gq', twin, 60, 10)
+    res.seen(('witness-twin', 'gq', twin))
+    if status != 'ok':
+        report_sweep_failure(res, 'gq', twin, status, detail,
+                             'GQ twin of the SQ witness')
 
     # ---- 2. cards: ties card / mcnp, and the sweep ----
     cards = [(mn, list(prm), 'corpus', None) for mn, prm in CORPUS]
